@@ -105,6 +105,11 @@ def symbols():
     add('project_2d', lambda: {'fs': _fs((7, 5))}, lambda a: a['fs'].project([4, 3]))
     add('fold', lambda: {'fs': _fs((5, 4))}, lambda a: a['fs'].fold())
     add('S_pi', lambda: {'fs': _fs((7,))}, lambda a: np.array([a['fs'].S(), a['fs'].pi(), a['fs'].Watterson_theta(), a['fs'].Tajima_D()]))
+    def _one_corner():
+        fs = dadi.Spectrum(np.arange(1.0, 9.0), mask_corners=False)     # e.g. divergence data: fixed sites kept, absent class masked
+        fs.mask[0] = True
+        return fs
+    add('S_pi_one_corner_masked', lambda: {'fs': _one_corner()}, lambda a: np.array([a['fs'].S(), a['fs'].Watterson_theta(), a['fs'].Tajima_D(), a['fs'].pi()]))
     add('Fst', lambda: {'fs': _fs((4, 6))}, lambda a: np.array([a['fs'].Fst()]))
     add('marginalize', lambda: {'fs': _fs((4, 3, 5))}, lambda a: a['fs'].marginalize([1]))
     add('from_phi_1d', lambda: {'phi': _phi(1), 'xx': _grid()}, lambda a: dadi.Spectrum.from_phi(a['phi'], [5], [a['xx']]))
@@ -132,6 +137,10 @@ def symbols():
         lambda a: np.array([Inference._object_func(a['p'], a['d'], fA, [20], store_thetas=True, multinom=True)]))
     add('optimize_grid', lambda: {'d': fA([3.3, 1.9, 1.2], (8,), [20]), 'fixed': [None, 2.0, 1.0]},
         lambda a: np.array(Inference.optimize_grid(a['d'], fA, [20], (slice(2.0, 4.1, 1.0),), fixed_params=a['fixed'], full_output=True)[0]))
+    import nlopt
+    add('opt_none_bounds', lambda: {'p': [3.0, 2.0, 1.0], 'd': fA([3.3, 1.9, 1.2], (8,), [20]), 'lo': [None, 0.5, 0.1], 'up': [10.0, None, 5.0], 'fixed': [None, None, 1.0]},
+        lambda a: np.array(Inference.opt(a['p'], a['d'], fA, [20], lower_bound=a['lo'], upper_bound=a['up'], fixed_params=a['fixed'], multinom=False,
+                                         algorithm=nlopt.LN_BOBYQA, maxeval=8)[0]))
     add('FIM_A', lambda: {'p': [3.0, 2.0, 1.0], 'd': fA([3.3, 1.9, 1.2], (8,), [20])}, lambda a: Godambe.FIM_uncert(fA, [20], a['p'], a['d'], multinom=False))
     add('FIM_A_pts40', lambda: {'p': [3.0, 2.0, 1.0], 'd': fA([3.3, 1.9, 1.2], (8,), [20])}, lambda a: Godambe.FIM_uncert(fA, [40], a['p'], a['d'], multinom=False))
     add('FIM_A_intp0', lambda: {'p': [3, 2, 1], 'd': fA([3.3, 1.9, 1.2], (8,), [20])}, lambda a: Godambe.FIM_uncert(fA, [20], a['p'], a['d'], multinom=False))
@@ -187,6 +196,8 @@ def symbols():
     try:
         g = _demes_graph()
         add('demes_sfs', lambda: {'g': g}, lambda a: dadi.Spectrum.from_demes(a['g'], sampled_demes=['A', 'B'], sample_sizes=[4, 3], pts=[8]))
+        add('demes_sfs_ancient', lambda: {'g': g, 'demes': ['A', 'B'], 'ns': [3, 2], 'times': [60.0, 0]},
+            lambda a: dadi.Spectrum.from_demes(a['g'], sampled_demes=a['demes'], sample_sizes=a['ns'], sample_times=a['times'], pts=[8, 10]))
         add('demes_sfs_BA', lambda: {'g': g}, lambda a: dadi.Spectrum.from_demes(a['g'], sampled_demes=['B', 'A'], sample_sizes=[3, 4], pts=[8]))
     except Exception:
         pass
@@ -195,7 +206,7 @@ def symbols():
 
 QUICK_SYMS = ['from_phi_inbreeding_ploidy4', 'from_phi_inbreeding_ploidy4_2ind', 'from_phi_inbreeding_3ind', 'lowpass_nocall', 'fragment_bootstrap', 'FIM_A_pts40', 'project_1d', 'project_2d', 'from_phi_1d', 'from_phi_2d', 'from_phi_2d_gridB', 'from_phi_inbreeding', 'from_data_dict_1', 'lowpass_projmat_F0',
               'lowpass_projmat_F', 'LRT_A1', 'LRT_A2', 'FIM_A', 'object_func', 'optimize_grid', 'two_pops']
-BLAS = {'from_phi_2d', 'from_phi_2d_gridB', 'from_phi_2d_gridC', 'from_phi_3d', 'from_phi_4d', 'reorder_then_sample', 'demes_sfs', 'demes_sfs_BA'}
+BLAS = {'demes_sfs_ancient', 'from_phi_2d', 'from_phi_2d_gridB', 'from_phi_2d_gridC', 'from_phi_3d', 'from_phi_4d', 'reorder_then_sample', 'demes_sfs', 'demes_sfs_BA'}
 
 
 def canon_result(r):
@@ -439,8 +450,8 @@ def case_layout(col, p):
                 col.violation('C20:%s:layout:argument_modified' % nm, info, '')
     # parameter vectors given as a list may just as well be given as a float array (what the optimisers return): same value, array untouched
     for k, v in args0.items():
-        if not (isinstance(v, (list, tuple)) and v and all(isinstance(x, (int, float)) and not isinstance(x, bool) for x in v)):
-            continue
+        if not (isinstance(v, (list, tuple)) and v and all(isinstance(x, (int, float)) and not isinstance(x, bool) for x in v)) or k in ('ns', 'times'):
+            continue          # (sample sizes and sample times are documented as lists)
         args = factory()
         newv = np.array(v, dtype=float)
         args[k] = newv
